@@ -254,14 +254,30 @@ func (c *Check) StaticCallers(target *ssa.Function) map[string]token.Pos {
 		if !inScope(fn) || len(fn.Blocks) == 0 {
 			continue
 		}
-		for _, cs := range c.P.CallsIn(fn) {
+		for _, cs := range c.P.CallsInOwn(fn) {
 			if f := c.P.resolveCallee(cs.Ins.Common()); f != nil && f == target {
 				out[funcName(rootFn(fn))] = cs.Ins.Pos()
+			}
+		}
+		// call sites that the normal form replaced by the helper's body
+		if c.P.inl != nil {
+			for g, sites := range c.P.inl.callers {
+				if c.P.unwrap(g) != target {
+					continue
+				}
+				for _, s := range sites {
+					if s.Caller == fn {
+						out[funcName(rootFn(fn))] = s.Pos
+					}
+				}
 			}
 		}
 		// function value taken (method value / function reference) counts as a potential caller
 		for _, b := range fn.Blocks {
 			for _, ins := range b.Instrs {
+				if c.P.IsClone(ins) {
+					continue
+				}
 				for _, op := range ins.Operands(nil) {
 					if f, ok := (*op).(*ssa.Function); ok && c.P.unwrap(f) == target {
 						if ci, isCall := ins.(ssa.CallInstruction); isCall && ci.Common().Value == *op {
